@@ -62,8 +62,9 @@ def plan(tier):
         "min_nontrivial": 20 if quick else 400,
         "required_counters": ["programs", "outputs_compared"],
         "rule": "one case = one generated (document, job) pair accepted and run by the reference; distinct = "
-                "distinct document+job digest; all are non-trivial (>= 1 step). Diverging documents are shrunk and "
-                "classified by feature signature + shape of the difference.",
+                "distinct document+job digest; all are non-trivial (>= 1 step). A divergence is attributed to listed "
+                "mechanisms by neutralising rewrites (+ value-level conditions); what is left is shrunk and reported "
+                "with its feature signature and the shape of the difference.",
         "exhaustive": False,
         "assumptions": ["cwltool --no-container is the reference semantics",
                         "documents rejected by the reference or crashing it are discarded, not judged"],
@@ -135,7 +136,7 @@ def _leaves(v):
     return 1
 
 
-CANCEL_NOISE = ("Cannot operate on a closed database", "no active connection", "'NoneType' object has no attribute 'execute'",
+CANCEL_NOISE = ("CancelledError", "Cannot operate on a closed database", "no active connection", "'NoneType' object has no attribute 'execute'",
                 "FAILED Workflow execution", "failure can not be recovered", "Could not retrieve connector for job", "CANCELLED")
 
 
@@ -186,10 +187,11 @@ def _extra_condition(mech, case, res, rerun):
     return True
 
 
-def classify(sh, case, res, rerun):
+def classify(sh, case, res, rerun, trace):
     """-> (list of mechanisms that explain the divergence, remaining case, remaining result)
     The rewrites are applied cumulatively in a fixed order; one is kept iff the document contains its construct,
-    the reference's outputs are unchanged by it, and StreamFlow's result changes with it."""
+    the reference's outputs are unchanged by it, and StreamFlow's result changes with it.
+    `trace` receives one line per mechanism tried (kept in the witness)."""
     found = []
     cur, cur_res = case, res
     for mech, rewrite in N.MECHANISMS:
@@ -199,12 +201,21 @@ def classify(sh, case, res, rerun):
         if not changed:
             continue
         r = rerun(new)
-        if r is None or not _same_ref(cur_res, r):
+        if r is None:
+            r = rerun(new)  # an interrupted run (wall clock) is repeated once
+        if r is None:
+            trace.append(f"{mech}: rewritten document could not be run ({rerun.last_skip})")
+            continue
+        if not _same_ref(cur_res, r):
+            trace.append(f"{mech}: the rewrite changes the reference's result, not used")
             continue
         if _sig(r) == _sig(cur_res):
+            trace.append(f"{mech}: construct present, StreamFlow's result unchanged by the rewrite")
             continue
         if not _extra_condition(mech, cur, cur_res, rerun):
+            trace.append(f"{mech}: rewrite changes StreamFlow's result but the value-level condition does not hold")
             continue
+        trace.append(f"{mech}: explains (part of) the divergence; left: {r['kind']}")
         found.append(mech)
         cur, cur_res = new, r
     return found, cur, cur_res
@@ -223,6 +234,9 @@ def run_case(sh: Shard, case, hist=None, shrink_budget=None):
     if "skip" in res:
         bump(res["skip"])
         sh.count("discarded_" + res["skip"])
+        ds = sh.extra.setdefault("discard_samples", [])
+        if len(ds) < 4 and res["skip"] in ("ref_referr", "ref_invalid", "sf_timeout", "ref_timeout"):
+            ds.append({"why": res["skip"], "features": case["meta"]["features"][:14], "log_tail": (res.get("log") or "")[-400:]})
         return res
     sh.count("programs")
     sh.count("outputs_compared", max(1, len(res.get("ref_out") or res.get("sf_out") or {})))
@@ -241,21 +255,33 @@ def run_case(sh: Shard, case, hist=None, shrink_budget=None):
     def rerun(c):
         sh.count("classification_runs")
         r = run_pair(sh, c, root, timeout)
-        return None if "skip" in r else r
+        if "skip" in r:
+            rerun.last_skip = r["skip"]
+            if r["skip"].endswith("timeout"):
+                rerun.interrupted = True
+            return None
+        return r
+    rerun.last_skip, rerun.interrupted = None, False
 
-    found, rest, rest_res = classify(sh, case, res, rerun)
+    trace = []
+    found, rest, rest_res = classify(sh, case, res, rerun, trace)
     shape0 = [(p, _short(a), _short(b)) for p, a, b in res["diff"][:4]] if res["kind"] == "diff" else res["kind"]
     for mech in found:
         bump("known:" + mech)
         sh.violation(mech, f"{res['kind']}: reference {res['ref']} / StreamFlow {res['sf']}; difference {json.dumps(shape0)[:500]}; "
-                           f"explained by {found}", {"case_json": json.dumps(case), "kind": res["kind"], "diff": res["diff"][:12], "explained_by": found,
+                           f"explained by {found}", {"case_json": json.dumps(case), "kind": res["kind"], "diff": res["diff"][:12], "explained_by": found, "classification_trace": trace,
                                                      "sf_log": res["sf_log"][:800], "signature": G.doc_features(case["wf"])})
     if rest_res["kind"] is None:
+        return res
+    if rerun.interrupted:
+        # a classification run hit the wall clock: the remainder cannot be attributed either way
+        bump("classification_interrupted")
+        sh.inconclusive_because("classification of a divergence was interrupted by the wall-clock guard: " + "; ".join(trace)[:600])
         return res
 
     kind = rest_res["kind"]
     evals = [0]
-    t_end = time.time() + (shrink_budget or sh.pick(300, 600))  # watchdog only; the budget is the number of runs
+    t_end = time.time() + (shrink_budget or sh.pick(300, 600) * _scale())  # watchdog only; the budget is the number of runs
     max_evals = sh.pick(40, 80)
     results = {}
 
@@ -284,7 +310,7 @@ def run_case(sh: Shard, case, hist=None, shrink_budget=None):
     if found:
         what += f"; after neutralising {found}"
     bump("UNCLASSIFIED")
-    sh.violation(None, what, {"case_json": json.dumps(case), "kind": kind, "after_rewrites": found,
+    sh.violation(None, what, {"case_json": json.dumps(case), "kind": kind, "after_rewrites": found, "classification_trace": trace,
                               "shrunk_json": json.dumps({"wf": small["wf"], "job": small["job"], "files": small["files"]}),
                               "shrink_steps": steps_taken, "signature": sig, "diff": sres["diff"][:12],
                               "sf_log": sres["sf_log"][:1500], "ref": sres["ref"], "ref_kind": sres.get("ref_kind")})
